@@ -11,6 +11,10 @@ import AdfObdd.MemoCheckProofs
 import AdfObdd.MemoTransparent
 import AdfObdd.CallHistoryMemo
 import AdfObdd.CallHistoryMemoFull
+import AdfObdd.CallHistoryQuery
+import AdfObdd.CallHistoryRand
+import AdfObdd.Props.C12
+import AdfObdd.PersistMore
 /-! # C11 — cache transparency, handle stability, determinism across call histories
 
 Every public call only *extends* the node table and adds sound memo entries (`WF` is preserved,
@@ -109,9 +113,9 @@ theorem ng_search_history_independent (h h' : SM.Heu) (s s' : Store) (n : Nat) (
 
 /-! Determinism ("repeating the same call sequence reproduces the same answers in the same order") is
     immediate for the model: every function above is a pure function of explicit inputs (for Rand the
-    generator state is an explicit input of the scripted shape). The ORDER in which the two searches
-    emit their models after different histories is not claimed by the property and is not proved
-    equal (it is nevertheless compared handle for handle with the model on every explored history). -/
+    generator state is an explicit input of the scripted shape). The ORDER in which the nogood-learning
+    search emits its models after different histories IS equal (`ng_order_equal_after_history` below); for the
+    counting searches it is open (compared handle for handle with the model on every explored history). -/
 
 /-- non-vacuity of the history-independence theorems: two (here identical) well-formed stores whose
 condition handles denote the same functions -/
@@ -267,7 +271,21 @@ dependencies of a condition, extra formulas as a list of diagram operations) and
 `runCalls`, built from exactly the definitions the driver runs for the corresponding protocol lines
 (`groundedLoop StoreRA`, `completeAll`, `stableAll`, `Cli.stablePre` (= `Drv.stablePreAll`),
 `countAll`, `SM.ngSearch`, `countF` / `paths` / `depsOf`, `runOps`), threading the store.
-`Heuristic::Rand` is not modelled (nor run by the driver): the generator state is outside the model.
+`Heuristic::Rand` / `Adf::seed` are not part of `Call` (nor run by the driver); they are modelled over an ABSTRACT
+deterministic generator in `AdfObdd/CallHistoryRand.lean` (`same_seed_statement` below; `StdRng` itself is not
+modelled).  NOT part of `AdfState`: `count_cache` and `var_deps` (the feature-dependent tables of C12); the
+memoised model count is therefore not a `Call` - see `memoised_count_is_the_reimport_exception`.
+How the first sentence of the property ("the answer of a call after any history equals the answer of the same
+call on a fresh object") is READ here: for term vectors, handle NUMBERS cannot be equal across histories (the
+node tables differ), so equality is of the decided parts and of the functions the handles denote; for the
+enumerations it is proved as equality of SETS (each model once) for every call kind
+(`answers_history_independent`), as equality of the LISTS (same order) for `stable` / `stable_with_prefilter`
+(`stable_answers_equal_after_history`), `complete` (`complete_order_equal_after_history`: decided parts),
+`grounded` (one vector) and the nogood-learning search with every built-in heuristic, in both modes, for every
+bound (`ng_order_equal_after_history`); list equality for the two COUNTING searches across DIFFERENT node tables
+is the open remainder of `order_across_histories_statement` (neither proved nor refuted; on the explored
+histories the orders are equal, `#guard` below).  Order equality for ALL call kinds is proved between objects with the SAME node
+table (`answers_memo_independent`, `answers_depend_on_node_table`) - that never compares "after h" with "fresh".
 Proofs: `AdfObdd/CallHistoryProofs.lean`, `AdfObdd/CallHistoryMemo.lean`, `AdfObdd/SearchLock.lean`
 (+ `CountSearchLock.lean`), `AdfObdd/CallHistoryMemoFull.lean`. -/
 namespace C11
@@ -299,7 +317,8 @@ object satisfying the invariant, `grounded` returns the least fixpoint (and hand
 functions `semLoop`), `complete` the fixpoints of Γ without duplicates, grounded first, the three
 stable enumerations and both searches exactly the stable models, each once, the two-valued search
 the two-valued models (side condition `Supp` as in C05), extra formulas handles of the functions
-the operations name. -/
+the operations name.  For QUERIES (and for a search that hit its iteration bound) `CallH.Exact` is `True`,
+i.e. this theorem says NOTHING about them; what a query answers is `query_answers_exact` below. -/
 theorem answers_exact (st : AdfState) (c : Call) (hi : Inv st) (hs : c.twoValued → Supp st) :
     Exact (st.ac.map (eval st.s)) st.n c (runCall st c).1.s (runCall st c).2 :=
   runCall_exact st c hi hs
@@ -323,12 +342,191 @@ theorem ng_halts_after_history (st : AdfState) (hi : Inv st) (h : List Call) (he
   ng_halts_after st hi h heu stable hs
 
 /-- from the written framework: after ANY history on the freshly built object every answer is the
-definitional answer for the WRITTEN conditions (`fms.map Fm.sem`) -/
+definitional answer for the WRITTEN conditions (`fms.map Fm.sem`) - for every call kind except queries
+(`Exact … (.query _ _) = True`); queries: `query_answers_exact_after_history_from_formulas` -/
 theorem answers_exact_after_history_from_formulas (fms : List Fm) (hn : fms.length ≤ VBOT)
     (hv : ∀ f ∈ fms, NConc.atomsLt fms.length f) (h : List Call) (c : Call) :
     Exact (fms.map Fm.sem) fms.length c (runCall (runCalls (freshAdf fms) h).1 c).1.s
       (answerAfter (freshAdf fms) h c) :=
   exact_after_history_from_formulas fms hn hv h c
+
+
+/-! ### queries: the numbers are those of the condition's FUNCTION (second review, item 6a)
+
+`CallH.ExactQuery D i q a`: the answer `a` to `query i q` is a list of numbers that, for EVERY truth table `tt`
+over EVERY number `nv` of variables representing the function `D[i]` (`TT.Rep`; the function must look at the
+variables below `nv` only, `TT.DetBy`), satisfies `CallH.QuerySpec nv tt q`:
+models `[cm, m]` with `m · 2^nv = TT.sat nv tt · 2^(TT.depth nv tt)` and `cm · 2^nv = TT.unsat … · 2^depth` (the
+counts over the diagram's own depth, C13 `counts_vs_truth_table`), paths `= TT.paths nv tt`, depth
+`= TT.depth nv tt` (C13 `depth_vs_truth_table`, `paths_vs_truth_table`), dependencies: the same SET as
+`TT.deps nv tt` (the list order / multiplicity of the model's `depsOf` is not claimed); an index out of range
+is rejected. -/
+
+/-- **a query answers the truth-table-level numbers of the condition's function** -/
+theorem query_answers_exact (st : AdfState) (hi : Inv st) (i : Nat) (q : Query) :
+    ExactQuery (st.ac.map (eval st.s)) i q (runCall st (.query i q)).2 :=
+  query_exact st hi i q
+
+/-- … after any history on the freshly built object: the numbers of the WRITTEN condition -/
+theorem query_answers_exact_after_history_from_formulas (fms : List Fm) (hn : fms.length ≤ VBOT)
+    (hv : ∀ f ∈ fms, NConc.atomsLt fms.length f) (h : List Call) (i : Nat) (q : Query) :
+    ExactQuery (fms.map Fm.sem) i q (answerAfter (freshAdf fms) h (.query i q)) :=
+  query_exact_after_history_from_formulas fms hn hv h i q
+
+/-- every call kind: `Exact` and, for queries, `ExactQuery` -/
+theorem answers_exact_incl_queries (st : AdfState) (c : Call) (hi : Inv st) (hs : c.twoValued → Supp st) :
+    Exact (st.ac.map (eval st.s)) st.n c (runCall st c).1.s (runCall st c).2 ∧
+    ∀ i q, c = .query i q → ExactQuery (st.ac.map (eval st.s)) i q (runCall st c).2 :=
+  ⟨runCall_exact st c hi hs, fun i q e => e ▸ query_exact st hi i q⟩
+
+/-! ### order across histories (second review, item 6b) -/
+
+/-- **`stable` and `stable_with_prefilter`: the LISTS are equal** - same vectors (of the handles 0 / 1), same
+order - after any history and before it (in particular on the fresh object): the candidates are enumerated by
+`TwoValuedInterpretationsIterator` over the decided part of the grounded vector and the test is a function of
+the conditions' functions; neither looks at a diagram's shape -/
+theorem stable_answers_equal_after_history (st : AdfState) (hi : Inv st) (h : List Call) :
+    answerAfter st h .stable = (runCall st .stable).2 ∧ answerAfter st h .stablePre = (runCall st .stablePre).2 :=
+  CallH.stable_answers_equal_after_history st hi h
+
+/-- **`complete`: the decided parts are listed in the same order** after any history and before it (the
+vectors themselves contain handles of residual functions at undecided positions, whose NUMBERS differ across
+histories) -/
+theorem complete_order_equal_after_history (st : AdfState) (hi : Inv st) (h : List Call) :
+    ∃ vs vs', answerAfter st h .complete = .vecs vs ∧ (runCall st .complete).2 = .vecs vs' ∧ dec vs = dec vs' :=
+  complete_answers_order_after_history st hi h
+
+/-- **the nogood-learning search: same verdict on the bound, same decided parts in the same order** after any
+history and before it - every built-in heuristic (Simple, both counting heuristics, the scripted shape), both
+modes, every bound; no support hypothesis -/
+theorem ng_order_equal_after_history (st : AdfState) (hi : Inv st) (h : List Call) (heu : SM.Heu) (fuel : Nat)
+    (stable : Bool) :
+    (answerAfter st h (.ng heu fuel stable) = .fuelExhausted ∧ (runCall st (.ng heu fuel stable)).2 = .fuelExhausted) ∨
+    ∃ vs tr vs' tr', answerAfter st h (.ng heu fuel stable) = .ng vs tr ∧
+      (runCall st (.ng heu fuel stable)).2 = .ng vs' tr' ∧ dec vs = dec vs' :=
+  ng_answers_order_after_history st hi h heu fuel stable
+
+/-- … for two different objects whose conditions denote the same functions -/
+theorem ng_order_history_independent (heu : SM.Heu) (s s' : Store) (n : Nat) (ac ac' : List Nat) (stable : Bool)
+    (w : WF s) (w' : WF s') (hl : ac.length = n) (hl' : ac'.length = n)
+    (hv : ∀ t ∈ ac, t < s.nodes.size) (hv' : ∀ t ∈ ac', t < s'.nodes.size)
+    (hsame : ac.map (eval s) = ac'.map (eval s')) (fuel : Nat) :
+    (SM.ngSearch heu fuel s n ac stable).2.2.2 = (SM.ngSearch heu fuel s' n ac' stable).2.2.2 ∧
+    ((SM.ngSearch heu fuel s n ac stable).2.2.2 = true →
+      (SM.ngSearch heu fuel s n ac stable).2.1.map (fun v => v.map storeIsConst) =
+      (SM.ngSearch heu fuel s' n ac' stable).2.1.map (fun v => v.map storeIsConst)) :=
+  NConc.Ord.ngSearch_order heu s s' n ac ac' stable w w' hl hl' hv hv' hsame fuel
+
+/-- … for two different objects whose conditions denote the same functions -/
+theorem stable_order_history_independent (s s' : Store) (n : Nat) (ac ac' : List Nat) (w : WF s) (w' : WF s')
+    (hl : ac.length = n) (hl' : ac'.length = n)
+    (hv : ∀ t ∈ ac, t < s.nodes.size) (hv' : ∀ t ∈ ac', t < s'.nodes.size)
+    (hsame : ac.map (eval s) = ac'.map (eval s')) :
+    (stableAll s n ac).2 = (stableAll s' n ac').2 ∧ (Cli.stablePre s n ac).2 = (Cli.stablePre s' n ac').2 :=
+  stable_order_independent s s' n ac ac' w w' hl hl' hv hv' hsame
+
+/-- the decided parts an answer lists, in order (`none`: not an enumeration / iteration bound hit) -/
+def decAns : Answer → Option (List I3)
+  | .vec v => some [v.map storeIsConst]
+  | .vecs vs => some (dec vs)
+  | .ng vs _ => some (dec vs)
+  | _ => none
+
+/-- FULL order statement across histories: for every enumeration call the decided parts are listed in the same
+order after any history as before it (whenever neither side hit the iteration bound) -/
+def order_across_histories_statement : Prop :=
+  ∀ (st : AdfState), Inv st → ∀ (h : List Call) (c : Call), (c.twoValued → Supp st) →
+    ∀ l l', decAns (answerAfter st h c) = some l → decAns (runCall st c).2 = some l' → l = l'
+
+/-- proved part: `grounded`, `complete`, `stable`, `stable_with_prefilter` (their enumeration order is that of
+the iterator over the decided part of the grounded vector, the filters are semantic: `CallH.threeValAll_dec`,
+`CallH.twoValAll_eq`) and the nogood-learning search `ng` (both runs are lock-step simulations of the SAME run of
+the semantic machine: `NConc.Ord.ngSearch_order`, `NConc.Ord.heuCall_key`).  MISSING: the two counting searches
+`count` (their branching follows the cube list `Bdd::interpretations` of residual diagrams, a function of the
+FUNCTION by canonicity, but no canonical-cube-list theorem is available; no counterexample is known, see the
+`#guard` on five statements below). -/
+theorem order_across_histories_partial (st : AdfState) (hi : Inv st) (h : List Call) (c : Call)
+    (hc : c = .grounded ∨ c = .complete ∨ c = .stable ∨ c = .stablePre ∨ ∃ heu fuel stable, c = .ng heu fuel stable) :
+    ∀ l l', decAns (answerAfter st h c) = some l → decAns (runCall st c).2 = some l' → l = l' := by
+  intro l l' h1 h2
+  rcases hc with rfl | rfl | rfl | rfl | ⟨heu, fuel, stable, rfl⟩
+  · have := history_independent st hi h .grounded (fun x => x.elim)
+    simp only [answerAfter, runCall] at this h1 h2
+    simp only [decAns, Option.some.injEq] at h1 h2
+    rw [← h1, ← h2]
+    simp only [CallH.Agree] at this
+    rw [this.1]
+  · obtain ⟨vs, vs', e1, e2, e3⟩ := complete_answers_order_after_history st hi h
+    rw [e1] at h1; rw [e2] at h2
+    simp only [decAns, Option.some.injEq] at h1 h2
+    rw [← h1, ← h2, e3]
+  · rw [(CallH.stable_answers_equal_after_history st hi h).1, h2] at h1
+    exact (Option.some.inj h1).symm
+  · rw [(CallH.stable_answers_equal_after_history st hi h).2, h2] at h1
+    exact (Option.some.inj h1).symm
+  · rcases ng_answers_order_after_history st hi h heu fuel stable with ⟨e1, _⟩ | ⟨vs, tr, vs', tr', e1, e2, e3⟩
+    · rw [e1] at h1; cases h1
+    · rw [e1] at h1; rw [e2] at h2
+      simp only [decAns, Option.some.injEq] at h1 h2
+      rw [← h1, ← h2, e3]
+
+/-! ### `count_cache` / `var_deps` are not part of `AdfState` (second review, item 6c) -/
+
+/-- **the ONLY answer that can differ after export + import is the memoised model count under the exception
+configuration** (`adhoccounting` without `adhoccountmodels` - the DEFAULT feature set).  `AdfState` is the
+feature-free `Store`: the calls of `Call` (among them the NAIVE counts, `query … .models`) are unaffected by a
+re-import (`answers_reimport_midway`), but only because the memoised variant `bdd.models(t, true)` - which reads
+`count_cache` - is not among them.  In the configured store `FStore` of C12 it is: on a store built by
+operations it answers `(0, 0)` for every inner node before the export (`C12.models_exception`), and the exact
+counts after `import` + `fix_import` (`C12.answers_after_import`) - so the two answers DIFFER.  Every other
+query (`paths`, `max_depth`, `var_dependencies`, naive and - outside the exception - memoised `models`) answers
+as the feature-free reference on both sides (`C12.answers_after_import`, `C12.semantics_feature_independent`). -/
+theorem memoised_count_is_the_reimport_exception (c : Cfg) (hv : c.valid) (he : c.exc = true) (fs : FStore)
+    (inv : FInv c true fs) (t : Nat) (ht2 : 2 ≤ t) (ht : t < fs.base.nodes.size) :
+    let fs' := fixImportC c (importC fs.base.nodes fs.base.uniq)
+    (modelsC c fs t true).1 = (0, 0) ∧
+    (modelsC c fs' t true).1 = ((countF fs.base (t+1) t).1, (countF fs.base (t+1) t).2.1) ∧
+    (modelsC c fs' t true).1 ≠ (modelsC c fs t true).1 := by
+  intro fs'
+  have ⟨a, b⟩ := C12.models_exception c fs inv he t ht2 ht
+  have w0 : WF (⟨fs.base.nodes, fs.base.uniq, ∅, ∅⟩ : Store) :=
+    Persist.WF_of_same fs.base _ inv.wf rfl (fun _ => rfl) (fun _ => by simp) (fun _ => by simp)
+  have h := C12.answers_after_import c hv fs.base.nodes fs.base.uniq w0 [t] (by intro x hx; simp at hx; subst hx; exact ht)
+    [] trivial
+  simp only at h
+  have h5 := (h.2.2.2 t (by simp [runOps]) true).2.2.2.2.1 he ht2 ht
+  have hcnt : countF (⟨fs.base.nodes, fs.base.uniq, ∅, ∅⟩ : Store) (t+1) t = countF fs.base (t+1) t :=
+    countF_ext inv.wf (Ext_of_nodes (s := fs.base) (s' := ⟨fs.base.nodes, fs.base.uniq, ∅, ∅⟩) rfl) (t+1) t ht
+  have h5' : (modelsC c fs' t true).1 = ((countF fs.base (t+1) t).1, (countF fs.base (t+1) t).2.1) := by
+    rw [← hcnt]; exact h5
+  refine ⟨a, h5', ?_⟩
+  rw [h5']
+  exact fun e => b e.symm
+
+/-! ### Rand and `seed` (second review, item 6d) -/
+
+/-- **"with the same seed for Rand, repeating the same call sequence reproduces the same answers in the same
+order"**, over an abstract deterministic generator `G : seed → index of the draw → raw output` (the way
+`SM.Heu.script` uses splitmix): the object carries the seed and the number of draws made (`CallH.RState`),
+`RCall` = every call of `Call`, `seed k`, and the Rand search in both modes (`heu_rand`: two draws per call).
+Two objects that agree on node table, `n`, `ac`, issued handles - memo contents arbitrary -, seed and draw
+counter answer EVERY call sequence identically (lists, order, handle numbers, traces).  `StdRng` (ChaCha12) is
+NOT modelled; without a call of `seed` the Rust generator comes from entropy and nothing is claimed. -/
+def same_seed_statement : Prop :=
+  ∀ (G : Nat → Nat → Nat) (h : List RCall) (r r' : RState), Inv r.st → REq r r' →
+    (runRCalls G r' h).2 = (runRCalls G r h).2 ∧ REq (runRCalls G r h).1 (runRCalls G r' h).1
+
+theorem same_seed_same_answers : same_seed_statement := CallH.same_seed_same_answers
+
+/-- and whatever the generator produces, a Rand search that halts answers exactly the stable / two-valued
+models, each once (`HeuOK` holds of `randHeu G seed ctr` for every `G`) -/
+theorem rand_search_exact (G : Nat → Nat → Nat) (seed ctr : Nat) (st : AdfState) (hi : Inv st) (stable : Bool)
+    (hs : stable = false → Supp st) :
+    ∃ fuel, (NConc.cSearch (randHeu G seed ctr) fuel st.s st.n st.ac stable).2.2.2 = true ∧
+      (dec (NConc.cSearch (randHeu G seed ctr) fuel st.s st.n st.ac stable).2.1).Nodup ∧
+      ∀ v : I3, v ∈ dec (NConc.cSearch (randHeu G seed ctr) fuel st.s st.n st.ac stable).2.1 ↔
+        ModelSpec (st.ac.map (eval st.s)) st.n stable v :=
+  CallH.rand_search_exact G seed ctr st.s st.n st.ac stable hi.wf hi.len hi.ac hs
 
 /-! ### determinism: what a pure model can say and what it cannot
 
@@ -336,7 +534,8 @@ theorem answers_exact_after_history_from_formulas (fms : List Fm) (hn : fms.leng
 order, the same node tables and handles": for the MODEL this is congruence of the function
 `runCalls` (`same_calls_same_answers` below) and carries no information — a Lean function cannot be
 nondeterministic. What it rules in is only that the model has no hidden input: no clock, no
-address, no generator state (`Heuristic::Rand` is excluded from `Call`).
+address, no generator state (`Heuristic::Rand` is excluded from `Call`; with the generator state as an explicit
+input it is `same_seed_same_answers` above).
 
 (b) What could make the REAL object nondeterministic or history dependent in its emission order is
 state that is not part of the mathematical answer: the CONTENTS of the memo tables (which depend on
@@ -399,7 +598,10 @@ theorem answers_memo_dropped_midway (st : AdfState) (hi : Inv st) (h1 h2 : List 
   memo_dropped_midway st hi h1 h2
 
 /-- the same for the object whose `Bdd` went through `serde` export and import
-(`Persist.exportB` / `importB` of C14: node table and unique table survive, memo tables skipped) -/
+(`Persist.exportB` / `importB` of C14: node table and unique table survive, memo tables skipped).
+CAVEAT: this is about the calls of `Call`; `count_cache` / `var_deps` are not part of `AdfState`, and the one
+call that reads `count_cache` - memoised `models` - DOES change its answer under the default features
+(`memoised_count_is_the_reimport_exception`) -/
 theorem answers_reimport_midway (st : AdfState) (hi : Inv st) (h1 h2 : List Call) :
     (runCalls (reimport (runCalls st h1).1) h2).2 = (runCalls (runCalls st h1).1 h2).2 ∧
     (runCalls (reimport (runCalls st h1).1) h2).1.s.nodes = (runCalls (runCalls st h1).1 h2).1.s.nodes :=
@@ -475,6 +677,100 @@ history against its memo-dropped copy -/
 example : MemoEq (runCalls (freshAdf exFms) exHist).1 (dropMemo (runCalls (freshAdf exFms) exHist).1) :=
   memoEq_drop _ (history_invariant _ exInv exHist).1
 
+
+/-- a query after the history, through the theorem: the condition of statement 0 is `¬b`; its truth table
+over the two statements is `TT.ofFn 2 …` (`TT.rep_ofFn`), the function looks at the statements only
+(`sem_detBy`), hence the depth answered after `exHist` is `TT.depth` of that table = 1, the paths are (1, 1), and
+the model counts `[cm, m]` satisfy `m · 4 = 2 · 2` and `cm · 4 = 2 · 2` -/
+example : answerAfter (freshAdf exFms) exHist (.query 0 .depth) = .nums [1] ∧
+    answerAfter (freshAdf exFms) exHist (.query 0 .paths) = .nums [1, 1] ∧
+    ∃ cm m, answerAfter (freshAdf exFms) exHist (.query 0 .models) = .nums [cm, m] ∧ m * 4 = 2 * 2 ∧ cm * 4 = 2 * 2 := by
+  have key : ∀ q, ∃ l, answerAfter (freshAdf exFms) exHist (.query 0 q) = .nums l ∧
+      QuerySpec 2 (TT.ofFn 2 (fun a => ((exFms.map Fm.sem).getD 0 (fun _ => false)) (TT.bitsAsg a))) q l := by
+    intro q
+    have h := query_answers_exact_after_history_from_formulas exFms exFms_ok.1 exFms_ok.2 exHist 0 q
+    cases ha : answerAfter (freshAdf exFms) exHist (.query 0 q) with
+    | nums l =>
+      rw [ha] at h
+      exact ⟨l, rfl, h.2 2 _ (TT.rep_ofFn 2 _) (sem_detBy exFms exFms_ok.2 0)⟩
+    | rejected => rw [ha] at h; exact absurd (by decide) h
+    | vec _ => rw [ha] at h; exact h.elim
+    | vecs _ => rw [ha] at h; exact h.elim
+    | ng _ _ => rw [ha] at h; exact h.elim
+    | fuelExhausted => rw [ha] at h; exact h.elim
+    | handles _ => rw [ha] at h; exact h.elim
+  have hd : TT.depth 2 (TT.ofFn 2 (fun a => ((exFms.map Fm.sem).getD 0 (fun _ => false)) (TT.bitsAsg a))) = 1 := by decide
+  have hp : TT.paths 2 (TT.ofFn 2 (fun a => ((exFms.map Fm.sem).getD 0 (fun _ => false)) (TT.bitsAsg a))) = (1, 1) := by decide
+  have hs : TT.sat 2 (TT.ofFn 2 (fun a => ((exFms.map Fm.sem).getD 0 (fun _ => false)) (TT.bitsAsg a))) = 2 := by decide
+  have hu : TT.unsat 2 (TT.ofFn 2 (fun a => ((exFms.map Fm.sem).getD 0 (fun _ => false)) (TT.bitsAsg a))) = 2 := by decide
+  refine ⟨?_, ?_, ?_⟩
+  · obtain ⟨l, e, sp⟩ := key .depth
+    simp only [QuerySpec, hd] at sp
+    rw [e, sp]
+  · obtain ⟨l, e, sp⟩ := key .paths
+    simp only [QuerySpec, hp] at sp
+    rw [e, sp]
+  · obtain ⟨l, e, cm, m, el, h1, h2⟩ := key .models
+    rw [hd, hs] at h1
+    rw [hd, hu] at h2
+    exact ⟨cm, m, by rw [e, el], h1, h2⟩
+
+/-- order: the `stable` answer after the history EQUALS the fresh one as a list (theorem, not evaluation) -/
+example : answerAfter (freshAdf exFms) exHist .stable = (runCall (freshAdf exFms) .stable).2 :=
+  (stable_answers_equal_after_history _ exInv exHist).1
+
+/-- … and the nogood search in two-valued mode under a counting heuristic lists its models in the fresh order
+after the history (theorem) -/
+example : (answerAfter (freshAdf exFms) exHist (.ng .minPathsMaxVarImp 1000 false) = .fuelExhausted ∧
+      (runCall (freshAdf exFms) (.ng .minPathsMaxVarImp 1000 false)).2 = .fuelExhausted) ∨
+    ∃ vs tr vs' tr', answerAfter (freshAdf exFms) exHist (.ng .minPathsMaxVarImp 1000 false) = .ng vs tr ∧
+      (runCall (freshAdf exFms) (.ng .minPathsMaxVarImp 1000 false)).2 = .ng vs' tr' ∧ dec vs = dec vs' :=
+  ng_order_equal_after_history _ exInv exHist _ _ _
+
+/-- `complete` lists the same decided parts in the same order after the history (theorem) -/
+example : ∃ vs vs', answerAfter (freshAdf exFms) exHist .complete = .vecs vs ∧
+    (runCall (freshAdf exFms) .complete).2 = .vecs vs' ∧ dec vs = dec vs' :=
+  complete_order_equal_after_history _ exInv exHist
+
+/-- the re-import exception on the store of `x0, x1, x0 ⊕ x1` under the DEFAULT features: for every issued inner
+handle the memoised model count is (0, 0) before the export, exact after import + `fix_import`, hence different -/
+example : ∀ t ∈ (runOps [.var 0, .var 1, .xor 2 3] Store.init [0, 1]).2, 2 ≤ t →
+    let fs := (runOpsC Cfg.default [.var 0, .var 1, .xor 2 3] (newC Cfg.default) [0, 1]).1
+    (modelsC Cfg.default fs t true).1 = (0, 0) ∧
+    (modelsC Cfg.default (fixImportC Cfg.default (importC fs.base.nodes fs.base.uniq)) t true).1 ≠ (0, 0) := by
+  intro t ht h2 fs
+  have hv : opsValid [.var 0, .var 1, .xor 2 3] 2 :=
+    ⟨by simp [Op.valid, VBOT], by simp [Op.valid, VBOT], by simp [Op.valid], trivial⟩
+  have ⟨_, b, i⟩ := C12.node_tables_feature_independent Cfg.default [.var 0, .var 1, .xor 2 3] hv
+  have ⟨_, _, h3⟩ := runOps_refines [.var 0, .var 1, .xor 2 3] Store.init [0, 1] _ WF_init HistOK.init hv
+  have hlt : t < fs.base.nodes.size := by
+    show t < (runOpsC Cfg.default [.var 0, .var 1, .xor 2 3] (newC Cfg.default) [0, 1]).1.base.nodes.size
+    rw [b]; exact C12.mem_hist_lt h3 t ht
+  have ⟨a, _, c⟩ := memoised_count_is_the_reimport_exception Cfg.default (by intro h; cases h) rfl fs i t h2 hlt
+  exact ⟨a, by rw [← a]; exact c⟩
+#guard (runOps [.var 0, .var 1, .xor 2 3] Store.init [0, 1]).2 == [0, 1, 2, 3, 5]
+
+/-- same seed: the object after a history and its memo-dropped copy, both seeded with 42, answer a sequence with
+two Rand searches, a re-seed and other calls identically - for every generator `G` -/
+example (G : Nat → Nat → Nat) :
+    let calls : List RCall := [.rand 1000 true, .plain .complete, .rand 1000 false, .seed 7, .rand 1000 true]
+    (runRCalls G ⟨dropMemo (runCalls (freshAdf exFms) exHist).1, 42, 0⟩ calls).2 =
+    (runRCalls G ⟨(runCalls (freshAdf exFms) exHist).1, 42, 0⟩ calls).2 :=
+  (same_seed_same_answers G _ ⟨(runCalls (freshAdf exFms) exHist).1, 42, 0⟩
+    ⟨dropMemo (runCalls (freshAdf exFms) exHist).1, 42, 0⟩ (history_invariant _ exInv exHist).1
+    ⟨memoEq_drop _ (history_invariant _ exInv exHist).1, rfl, rfl⟩).1
+
+/-- five statements, a history that allocates 17 nodes: on every enumeration call the decided parts are listed
+in the same ORDER after the history as on the fresh object (evaluation only - for the kinds not covered by
+`order_across_histories_partial` this is evidence, not a theorem) -/
+def ordFms : List Fm := [.not (.atom 1), .not (.atom 0), .not (.atom 3), .not (.atom 2), .xor (.atom 0) (.and (.atom 2) (.atom 4))]
+def ordHist : List Call := [.ops [.xor 2 4, .and 6 5, .or 7 6, .iff 3 5, .restrict 8 1 true, .var 1, .var 3, .and 12 13],
+  .complete, .ng (.script 3) 1000 false, .query 2 .models]
+def ordCalls : List Call := [.grounded, .complete, .stable, .stablePre, .count true, .count false, .ng .simple 1000 true,
+  .ng .minPathsMaxVarImp 1000 true, .ng .maxVarImpMinPaths 1000 false, .ng (.script 5) 1000 true, .ng (.script 5) 1000 false]
+#guard ordCalls.all fun c => decAns (answerAfter (freshAdf ordFms) ordHist c) == decAns (runCall (freshAdf ordFms) c).2
+#guard (runCalls (freshAdf ordFms) ordHist).1.s.nodes.size - (freshAdf ordFms).s.nodes.size == 17
+
 -- by evaluation: the history is not trivial (it allocates nodes, issues handles, answers differ in kind)
 #guard (runCalls (freshAdf exFms) exHist).1.s.nodes.size > (freshAdf exFms).s.nodes.size
 #guard (runCalls (freshAdf exFms) exHist).1.issued.length == 4
@@ -508,3 +804,60 @@ end C11
 #print axioms C11.answers_reimport_midway
 #print axioms C11.answers_memo_independent_partial
 #print axioms C11.answers_memo_dropped_partial
+#print axioms C11.query_answers_exact
+#print axioms C11.query_answers_exact_after_history_from_formulas
+#print axioms C11.stable_answers_equal_after_history
+#print axioms C11.order_across_histories_partial
+#print axioms C11.complete_order_equal_after_history
+#print axioms C11.ng_order_equal_after_history
+#print axioms C11.memoised_count_is_the_reimport_exception
+#print axioms C11.same_seed_same_answers
+#print axioms C11.rand_search_exact
+
+
+/-! ## (with C14) answers as LISTS after both persistence round trips, order and handle numbers included
+
+`C14.*_after_roundtrip` give `SameAnswers` (no duplicates, same members). Both round trips reproduce the NODE
+TABLE, and `answers_depend_on_node_table` above says every answer - order included - is a function of the node
+table, `n` and `ac`; composed in `PersistMore.lean` and restated here so that they are audited with a property. -/
+namespace C14More
+open Persist CallH
+
+theorem history_after_roundtrip_lists (a : PAdf) (w : WF a.bdd.st) (hv : ∀ t ∈ a.ac, t < a.bdd.st.nodes.size)
+    (h : List Call) :
+    let j := fixImportA (importA (exportA a))
+    let r := rebuildP a.bdd.st.nodes
+    ((runCalls (stateOf j.bdd.st j.ac) h).2 = (runCalls (stateOf a.bdd.st a.ac) h).2 ∧
+      (runCalls (stateOf j.bdd.st j.ac) h).1.s.nodes = (runCalls (stateOf a.bdd.st a.ac) h).1.s.nodes) ∧
+    ((runCalls (stateOf r.st a.ac) h).2 = (runCalls (stateOf a.bdd.st a.ac) h).2 ∧
+      (runCalls (stateOf r.st a.ac) h).1.s.nodes = (runCalls (stateOf a.bdd.st a.ac) h).1.s.nodes) :=
+  history_after_roundtrip a w hv h
+
+theorem searches_after_roundtrip_lists (a : PAdf) (w : WF a.bdd.st) (hv : ∀ t ∈ a.ac, t < a.bdd.st.nodes.size) :
+    let j := fixImportA (importA (exportA a))
+    let r := rebuildP a.bdd.st.nodes
+    let n := a.ac.length
+    ((completeAll j.bdd.st n j.ac).2.2 = (completeAll a.bdd.st n a.ac).2.2 ∧
+     (stableAll j.bdd.st n j.ac).2 = (stableAll a.bdd.st n a.ac).2 ∧
+     (Cli.stablePre j.bdd.st n j.ac).2 = (Cli.stablePre a.bdd.st n a.ac).2 ∧
+     (∀ useA, (countAll j.bdd.st n j.ac useA).2 = (countAll a.bdd.st n a.ac useA).2)) ∧
+    ((completeAll r.st n a.ac).2.2 = (completeAll a.bdd.st n a.ac).2.2 ∧
+     (stableAll r.st n a.ac).2 = (stableAll a.bdd.st n a.ac).2 ∧
+     (Cli.stablePre r.st n a.ac).2 = (Cli.stablePre a.bdd.st n a.ac).2 ∧
+     (∀ useA, (countAll r.st n a.ac useA).2 = (countAll a.bdd.st n a.ac useA).2)) :=
+  searches_after_roundtrip a w hv
+
+theorem nogood_after_roundtrip_lists (a : PAdf) (w : WF a.bdd.st) (hv : ∀ t ∈ a.ac, t < a.bdd.st.nodes.size)
+    (heu : SM.Heu) (fuel : Nat) (stable : Bool)
+    (hd : (SM.ngSearch heu fuel a.bdd.st a.ac.length a.ac stable).2.2.2 = true) :
+    let j := fixImportA (importA (exportA a))
+    let r := rebuildP a.bdd.st.nodes
+    ((SM.ngSearch heu fuel j.bdd.st a.ac.length j.ac stable).2.2.2 = true ∧
+      (SM.ngSearch heu fuel j.bdd.st a.ac.length j.ac stable).2.1 =
+        (SM.ngSearch heu fuel a.bdd.st a.ac.length a.ac stable).2.1) ∧
+    ((SM.ngSearch heu fuel r.st a.ac.length a.ac stable).2.2.2 = true ∧
+      (SM.ngSearch heu fuel r.st a.ac.length a.ac stable).2.1 =
+        (SM.ngSearch heu fuel a.bdd.st a.ac.length a.ac stable).2.1) :=
+  nogood_after_roundtrip a w hv heu fuel stable hd
+
+end C14More
